@@ -105,7 +105,16 @@ fn unary(rec: &mut Rec, r: &Rectangle, sizes: &[(u32, u32)], offs: &[i32]) {
             rh.push(json!([w, k, rect_json(&r.resized_height(w, AY[k]))]));
         }
     }
-    let off: Vec<Value> = offs.iter().map(|&n| json!([n, rect_json(&r.offset(n))])).collect();
+    // offset: the inherent method and the OffsetOutline trait method (a separate implementation in the main crate, used by
+    // PrimitiveStyle::fill_area / stroke_area), plus the offsets at which a side collapses exactly (n = -width / 2, -height / 2)
+    let mut offs: Vec<i32> = offs.to_vec();
+    for s in [r.size.width, r.size.height] {
+        if s < (1 << 30) {
+            offs.extend([-((s / 2) as i32), -((s / 2) as i32) - 1, -(((s + 1) / 2) as i32)]);
+        }
+    }
+    let mut off: Vec<Value> = offs.iter().map(|&n| json!([n, rect_json(&r.offset(n))])).collect();
+    off.extend(offs.iter().map(|&n| json!([n, rect_json(&embedded_graphics::primitives::OffsetOutline::offset(r, n))])));
     let br = match r.bottom_right() {
         Some(p) => pt_json(p),
         None => json!([]),
@@ -184,7 +193,22 @@ fn run_case_inner(rec: &mut Rec, d: &Value) {
                     Err(_) => items.push(json!([rect_json(&r), [], 0, 0, 1, 0])),
                 }
             }
-            rec.ev("edge", json!({ "items": items }));
+            // intersections among these rectangles and with partners that overlap their last column / row
+            let mut pairs = vec![];
+            let rs: Vec<Rectangle> = d["rects"].as_array().unwrap().iter().map(rect_from).collect();
+            for (k, a) in rs.iter().enumerate() {
+                let last = Point::new((a.top_left.x as i64 + a.size.width as i64 - 1) as i32, (a.top_left.y as i64 + a.size.height as i64 - 1) as i32);
+                let partners = [*a, Rectangle::new(last, Size::new(1, 1)), Rectangle::new(Point::new(last.x - 2, last.y - 1), Size::new(3, 2)),
+                                Rectangle::new(Point::new(a.top_left.x.saturating_sub(3), a.top_left.y.saturating_sub(2)), Size::new(a.size.width.min(1 << 20) + 1, a.size.height.min(1 << 20) + 1)),
+                                rs[(k + 3) % rs.len()]];
+                for b in partners {
+                    match catch(|| (a.intersection(&b), b.intersection(a))) {
+                        Ok((i1, i2)) => pairs.push(json!([rect_json(a), rect_json(&b), rect_json(&i1), rect_json(&i2), 0])),
+                        Err(_) => pairs.push(json!([rect_json(a), rect_json(&b), [0, 0, 0, 0], [0, 0, 0, 0], 1])),
+                    }
+                }
+            }
+            rec.ev("edge", json!({ "items": items, "pairs": pairs }));
             rec.nontrivial();
         }
         "un" => {
